@@ -180,6 +180,7 @@ impl Agg {
         self.images_distinct += out.images_distinct;
         self.publications_checked += out.publications_checked;
         self.commits_ok += out.commits_ok;
+        self.fault_points += out.fault_points;
         self.api_errors += out.api_errors.len() as u64;
         if self.samples.len() < 2 && out.nontrivial {
             self.samples.push(serde_json::json!({
